@@ -669,7 +669,9 @@ def _sample_chains_worker(
             if isinstance(exception, AdaptationError):
                 iter_queue.put(None)
             else:
-                chain_outputs.append((chain_index, outputs))
+                chain_outputs.append(
+                    (chain_index, outputs, chain_kwargs["rng"].bit_generator.state),
+                )
             # If returned handled exception was a manual interrupt put exception
             # on iteration queue to communicate to parent process and break
             if isinstance(exception, KeyboardInterrupt):
@@ -720,9 +722,11 @@ def _sample_chains_parallel(
             # Shared queue for workers to get arguments for _sample_chain calls
             # from on initialising each chain
             chain_queue = manager.Queue()
+            chain_rngs = []
             for c, (chain_kwargs, n_iter) in enumerate(
                 zip(per_chain_kwargs, n_iters, strict=True),
             ):
+                chain_rngs.append(chain_kwargs["rng"])
                 # Map memmaps to their filepaths prior to putting on argument queue to
                 # avoid serializing potentially large memory mapped arrays
                 chain_kwargs["chain_stats"] = _memmaps_to_file_paths(
@@ -801,7 +805,12 @@ def _sample_chains_parallel(
             indexed_chain_outputs = [r for res in results.get() for r in res]
             # Sort list by chain index (first element of tuple entries) and
             # then create new list with chain index removed
-            chain_outputs = [outp for i, outp in sorted(indexed_chain_outputs)]
+            indexed_chain_outputs = sorted(indexed_chain_outputs, key=lambda x: x[0])
+            # Carry state of each chain's random number generator over to parent
+            # process so subsequent sampling stages continue rather than replay stream
+            for i, _, rng_state in indexed_chain_outputs:
+                chain_rngs[i].bit_generator.state = rng_state
+            chain_outputs = [outp for _, outp, _ in indexed_chain_outputs]
         else:
             chain_outputs = []
     return (*_collate_chain_outputs(chain_outputs), exception)
